@@ -139,11 +139,12 @@ def get_type_graph(t: type) -> graphlib.TopologicalSorter[TypeNode]:
             #   wrap in a ForwardRef and don't add it to the stack
             #   This will terminate this edge to prevent infinite cycles.
             is_structural = inspection.issubscriptedgeneric(
-                child
-            ) or inspection.isuniontype(child)
+                unwrapped
+            ) or inspection.isuniontype(unwrapped)
             if is_visited and can_be_cyclic and is_structural:
-                # A subscripted generic or union has no name a reference could resolve
-                #   to without losing its parameters: defer the type itself.
+                # A subscripted generic or union (also behind an alias) has no name a
+                #   reference could resolve to without losing its parameters: defer the
+                #   type itself.
                 node = TypeNode(child, unwrapped, var=var, cyclic=True)
             elif is_visited and can_be_cyclic:
                 qualname = inspection.qualname(child)
